@@ -170,7 +170,10 @@ CHECKS = {
         'later actions on freshly expanded pipelines bound by position. Proved for every operator sequence and previous '
         'generation: feeding the committed list back by position gives every stateful apply-path actor exactly the state its '
         'own counterpart produced; re-training continues from the state at the actor\'s own position; train-only/label actors '
-        'are never persistent. Correspondence: histories of train / re-train / apply (latest or explicit generation) / '
+        'are never persistent; and (C04_apply_segment, with the graph model of C03 and the graph semantics of C01) the apply-segment '
+        'graph evaluated with the accessor binding ANY stored list to the persistent groups by position computes exactly '
+        'apply_run, so positional binding is the loader semantics of the compiler model. Correspondence (C04Seg.check_case_graph '
+        'replays each later action on the executable graph model too): histories of train / re-train / apply (latest or explicit generation) / '
         'performance-tracking evaluation through the real Composition.persistent and asset.State machinery, each action in a '
         'fresh process under another hash seed; histories in which the hyper-parameters of the code change between training and '
         'loading, with actors that restore their own hyper-parameter from the state (judged by the oracle: the current code\'s '
